@@ -29,7 +29,9 @@ T9 == << <<"set", "a", 1>>, <<"repeat", 2>>, <<"time">>, <<"get", "rq">>, <<"unt
 T10 == << <<"until", "r">>, <<"time">>, <<"set", "a", 1>>, <<"repeat", 3>>, <<"get", "q">>, <<"time">> >>
 AllScriptSets == {<<S1>>, <<S2>>, <<S3>>, <<T1, T2>>, <<T2, T1>>, <<T3, T4>>, <<T4, T3>>, <<T4, T5>>, <<T5, T4, T3>>, <<T6, T7, T8>>, <<T8, T7, T6>>,
                   <<T9>>, <<T10, T9>>, <<T9, T4>>}
-QuickScriptSets == {<<S1>>, <<S2>>, <<T1, T2>>, <<T2, T1>>, <<T3, T4>>, <<T4, T5>>, <<T6, T7, T8>>, <<T9>>, <<T10, T9>>}
+QuickScriptSets == {<<S1>>, <<S2>>, <<T1, T2>>, <<T2, T1>>, <<T3, T4>>, <<T4, T5>>, <<T6, T7, T8>>, <<T8, T7, T6>>, <<T9>>, <<T10, T9>>}
+(* sets in which a testbench added LATER wakes one added earlier: the woken one runs in the next pass *)
+ReorderSets == {<<T8, T7, T6>>, <<T5, T4, T3>>, <<T4, T3>>, <<T2, T1>>}
 OneScriptSet == {<<S1>>}
 TwoTbSets == {<<T1, T2>>}
 AllFns == 0..15
